@@ -196,3 +196,11 @@ NEUTRALS = [
     M("variance regrouped", _S, "var_w / (len(self) * (mean_w**2))", "(var_w / mean_w**2) / len(self.x)"),
     M("appends reordered", _B, "self.history.log_norm_ratio.append(log_evidence_ratio)\n                self.history.log_norm_ratio_var.append(log_evidence_ratio_var)", "self.history.log_norm_ratio_var.append(log_evidence_ratio_var)\n                self.history.log_norm_ratio.append(log_evidence_ratio)"),
 ]
+
+# functions the property is anchored in (auto-mutant sweep of the thorough tier)
+ANCHORS = [
+    'aspire.samples:SMCSamples.log_evidence_ratio',
+    'aspire.samples:SMCSamples.log_evidence_ratio_variance',
+    'aspire.samples:SMCSamples.unnormalized_log_weights',
+    'aspire.samplers.smc.base:SMCSampler.sample',
+]
